@@ -72,6 +72,15 @@ class C07(CfProp):
                           "event": [[{"k": "V", "n": "A", "s": None}, ["A", False]], [{"k": "C", "n": "C", "s": None, "i": [["A", True]]}, ["C", True]]]})
         while len(cases) < n:
             r0 = rng.random()
+            r1 = rng.random()
+            if r1 < 0.05:
+                g, ev = GEV.prefix_name_case(rng)
+                cases.append({"g": g, "event": ev})
+                continue
+            if r1 < 0.12:
+                g, ev = GEV.mediator_case(rng)
+                cases.append({"g": g, "event": ev})
+                continue
             if r0 < 0.08:
                 g, ev = GEV.three_world_case(rng)
                 cases.append({"g": g, "event": ev})
